@@ -59,6 +59,8 @@ def instances(tier, seed):
                 n += 1
     for method in ('MS', 'DC'):
         add(kind='signal', order=2, method=method, N=2, grid=fam.G_UNI, T=('num', Fr(2)), refine=2, der=True)
+        add(kind='signal', order=2, method=method, N=3, grid=fam.G_GEO_LOC, T=('free', Fr(3, 2)), refine=None)
+        add(kind='signal', order=1, method=method, N=2, grid=fam.G_UNI, T=('num', Fr(2)), refine=None, der=True)
     # bspline signals INSIDE the dynamics next to other parameters / variables of the stage (layout of the integrator's parameter vector)
     for what in ('parameter', 'variable'):
         for N, grid, T in ((3, fam.G_UNI, ('num', Fr(2))), (2, fam.G_GEO_LOC, ('free', Fr(3, 2)))):
@@ -251,10 +253,11 @@ def run_signal(item):
                     # der applied twice: second derivative in physical time
                     outs += [ocp.sample(d2sig, grid='control', refine=refine)[1]]
             else:
-                ts, ss = ocp.sample(sig, grid='integrator', refine=refine)
+                rkw = {'refine': refine} if refine else {}       # refine=None: the plain integrator grid
+                ts, ss = ocp.sample(sig, grid='integrator', **rkw)
                 outs = [ts, ss, ocp.value(ocp.T)]
                 if dsig is not None:
-                    outs += [ocp.sample(dsig, grid='integrator', refine=refine)[1]]
+                    outs += [ocp.sample(dsig, grid='integrator', **rkw)[1]]
             prog, zin, out = _trace(ocp, outs, ctx)
     except Unsupported:
         raise
@@ -310,7 +313,7 @@ def run_signal(item):
         if order == 0 and j == npts - 1:
             continue
         ref = rb.spline_value(rc[:nb], xi, order, span, ctx.rdom.const(xj), ctx.rdom)
-        ctx.prove('sample(sig,refine=%d)[%d]' % (refine, j), ssz[j], ref, key + '|value')
+        ctx.prove('sample(sig,refine=%s)[%d]' % (refine, j), ssz[j], ref, key + '|value')
         if dsig is not None and not (order - 1 == 0 and j == npts - 1):
             rv = rb.spline_value(refd, xi, order - 1, span, ctx.rdom.const(xj), ctx.rdom)
             dv = out[6][j] if method == 'SM' else out[3][j]
@@ -322,19 +325,22 @@ def run_signal(item):
                 ctx.prove('T^2*sample(der(der(sig)))[%d]' % j, out[7][j] * Tz * Tz, rv2, key + '|second-derivative')
     if order >= 1 and npts > 2:
         # twin (vacuity): the reference spline with the coefficient order reversed must be told apart
-        j = 1
-        xj = pos[j]
-        span = max([i for i in range(N) if xi[i] <= xj] or [0])
-        wrong = rb.spline_value(list(reversed(rc[:nb])), xi, order, span, ctx.rdom.const(xj), ctx.rdom)
-        ctx.s.push()
-        ctx.s.add(z3.simplify(ssz[j] - emb(wrong)) != 0)
-        rtw = str(ctx.s.check())
-        ctx.s.pop()
+        rtw = 'unsat'
+        for j in list(range(1, npts - 1)) + [0]:       # (a symmetric position, e.g. the middle knot of two intervals, cannot tell the two apart)
+            xj = pos[j]
+            span = max([i for i in range(N) if xi[i] <= xj] or [0])
+            wrong = rb.spline_value(list(reversed(rc[:nb])), xi, order, span, ctx.rdom.const(xj), ctx.rdom)
+            ctx.s.push()
+            ctx.s.add(z3.simplify(ssz[j] - emb(wrong)) != 0)
+            rtw = str(ctx.s.check())
+            ctx.s.pop()
+            if rtw == 'sat':
+                break
         ctx.twins = (1, 0) if rtw == 'sat' else (0, 1)
     if method == 'SM' and dsig is not None:
         for i, c in enumerate(refd):
             ctx.prove('T*gist(der(sig))[%d]' % i, out[5][i] * Tz, c, key + '|derivative-coeffs')
-    return ctx.result('signal order=%d %s N=%d refine=%d %s' % (order, method, N, refine, Tk[0]),
+    return ctx.result('signal order=%d %s N=%d refine=%s %s' % (order, method, N, refine, Tk[0]),
                       {'kind': 'signal', 'order': order, 'method': method, 'N': N, 'refine': refine, 'T': Tk[0], 'grid': item['grid'][0], 'proved': len(ctx.proved)})
 
 
@@ -416,46 +422,55 @@ def run_signal_dynamics(item):
     order, N, what, Tk = item['order'], item['N'], item['what'], item['T']
     ctx = Ctx()
     key = 'signal-dynamics|%s|order=%d' % (what, order)
-    with quiet():
-        ocp = Ocp(t0=0.5, T=FreeTime(float(Tk[1])) if Tk[0] == 'free' else float(Tk[1]))
-        x = ocp.state()
-        u = ocp.control()
-        a = ocp.parameter()
-        pc = ocp.parameter(grid='control')
-        w = ocp.variable()
-        ncoef = N + order
-        sig2 = None
-        if what == 'parameter':
-            sig = ocp.parameter(grid='bspline', order=order)
-            ocp.set_value(sig, ca.DM([0.5 + 0.25 * j for j in range(ncoef)]).T)
-        elif what == 'both':
-            # a bspline PARAMETER declared before a bspline VARIABLE of another order, and der() of the first one:
-            # declaration order, registration order in the method and the layout of the system functions all differ
-            sig = ocp.parameter(grid='bspline', order=order)
-            ocp.set_value(sig, ca.DM([0.5 + 0.25 * j for j in range(ncoef)]).T)
-            sig2 = ocp.variable(grid='bspline', order=max(order - 1, 0))
-        else:
-            sig = ocp.variable(grid='bspline', order=order)
-        ocp.set_value(a, 1.5)
-        ocp.set_value(pc, ca.DM([2.0 + j for j in range(N)]).T)
-        ocp.set_der(x, a * pc * u + w + sig + (3 * sig2 if sig2 is not None else 0))
-        if sig2 is not None:
-            ocp.subject_to(ocp.der(sig) + x <= 50)
-        ocp.subject_to(ocp.at_t0(x) == 0)
-        ocp.add_objective(ocp.integral(u * u) + w * w + ocp.at_tf(x) + ocp.T)
-        ocp.method(MultipleShooting(N=N, M=1, intg='expl_euler', grid=make_grid(item['grid'])))
-        ocp.solver('ipopt')
-        ts, xs = ocp.sample(x, grid='control')
-        us = ocp.sample(u, grid='control-')[1]
-        ss = ocp.sample(sig + (3 * sig2 if sig2 is not None else 0), grid='control')[1]
-        pcs = ocp.sample(pc, grid='control-')[1]
-        opti_ = ocp._method.opti
-        outs = [ts, xs, us, ss, pcs, ocp.value(a), ocp.value(w), opti_.g]
-        prog, zin, out = _trace(ocp, outs, ctx)
-        # which rows are equalities with zero bounds (bounds may be infinite: evaluated numerically, not translated)
-        lbv = np.array(opti_.debug.value(opti_.lbg, opti_.initial())).flatten()
-        ubv = np.array(opti_.debug.value(opti_.ubg, opti_.initial())).flatten()
-        eqrow = [bool(lbv[i] == 0 and ubv[i] == 0) for i in range(len(lbv))]
+    try:
+      with quiet():
+          ocp = Ocp(t0=0.5, T=FreeTime(float(Tk[1])) if Tk[0] == 'free' else float(Tk[1]))
+          x = ocp.state()
+          u = ocp.control()
+          a = ocp.parameter()
+          pc = ocp.parameter(grid='control')
+          w = ocp.variable()
+          ncoef = N + order
+          sig2 = None
+          if what == 'parameter':
+              sig = ocp.parameter(grid='bspline', order=order)
+              ocp.set_value(sig, ca.DM([0.5 + 0.25 * j for j in range(ncoef)]).T)
+          elif what == 'both':
+              # a bspline PARAMETER declared before a bspline VARIABLE of another order, and der() of the first one:
+              # declaration order, registration order in the method and the layout of the system functions all differ
+              sig = ocp.parameter(grid='bspline', order=order)
+              ocp.set_value(sig, ca.DM([0.5 + 0.25 * j for j in range(ncoef)]).T)
+              sig2 = ocp.variable(grid='bspline', order=max(order - 1, 0))
+          else:
+              sig = ocp.variable(grid='bspline', order=order)
+          ocp.set_value(a, 1.5)
+          ocp.set_value(pc, ca.DM([2.0 + j for j in range(N)]).T)
+          ocp.set_der(x, a * pc * u + w + sig + (3 * sig2 if sig2 is not None else 0))
+          if sig2 is not None:
+              ocp.subject_to(ocp.der(sig) + x <= 50)
+          shifted = what == 'variable'
+          if shifted:
+              ocp.subject_to(ocp.next(sig) - sig <= 7)       # the signal inside a shifted operand
+          ocp.subject_to(ocp.at_t0(x) == 0)
+          ocp.add_objective(ocp.integral(u * u) + w * w + ocp.at_tf(x) + ocp.T)
+          ocp.method(MultipleShooting(N=N, M=1, intg='expl_euler', grid=make_grid(item['grid'])))
+          ocp.solver('ipopt')
+          ts, xs = ocp.sample(x, grid='control')
+          us = ocp.sample(u, grid='control-')[1]
+          ss = ocp.sample(sig + (3 * sig2 if sig2 is not None else 0), grid='control')[1]
+          pcs = ocp.sample(pc, grid='control-')[1]
+          opti_ = ocp._method.opti
+          outs = [ts, xs, us, ss, pcs, ocp.value(a), ocp.value(w), opti_.g]
+          prog, zin, out = _trace(ocp, outs, ctx)
+          # which rows are equalities with zero bounds (bounds may be infinite: evaluated numerically, not translated)
+          lbv = np.array(opti_.debug.value(opti_.lbg, opti_.initial())).flatten()
+          ubv = np.array(opti_.debug.value(opti_.ubg, opti_.initial())).flatten()
+          eqrow = [bool(lbv[i] == 0 and ubv[i] == 0) for i in range(len(lbv))]
+    except Unsupported:
+        raise
+    except Exception as e:
+        ctx.viol.append({'property': PROP, 'key': key + '|raises', 'label': 'bspline %s inside the dynamics' % what, 'detail': 'declaring/transcribing raised: %s' % str(e).strip().splitlines()[-1][:200]})
+        return ctx.result('signal-dynamics %s order=%d N=%d' % (what, order, N), {'kind': 'signal-dynamics', 'raised': True})
     tz, xz, uz, sz, pz, az, wz, gz = out[0], out[1], out[2], out[3], out[4], out[5][0], out[6][0], out[7]
     fin = [[0.37 + 0.013 * (j + 7 * gi) for j in range(len(grp))] for gi, grp in enumerate(zin)]
     fo = prog.run(ctx.fdom, fin)
@@ -482,6 +497,28 @@ def run_signal_dynamics(item):
         else:
             ctx.viol.append({'property': PROP, 'key': key, 'label': 'gap[k=%d]' % k,
                              'detail': 'no equality row of the NLP equals the explicit-Euler gap residual with the bspline %s evaluated at the interval start next to the global parameter, the per-interval parameter and the global variable (%d numerically close candidates)' % (what, len(cands))})
+    if shifted:
+        for k in range(N):
+            wantz = sz[k + 1] - sz[k]
+            wantf_ = fo[3][k + 1] - fo[3][k]
+            ok = False
+            for i in range(len(gz)):
+                if eqrow[i] or abs(ubv[i] - 7) > 1e-12 or abs(fo[7][i] - wantf_) > 1e-9 * max(1.0, abs(wantf_)):
+                    continue
+                ctx.s.push()
+                ctx.s.add(z3.simplify(gz[i] - wantz) != 0)
+                r = str(ctx.s.check())
+                ctx.s.pop()
+                ctx.stats[r] += 1
+                ctx.stats['queries'] += 1
+                if r == 'unsat':
+                    ok = True
+                    break
+            if ok:
+                ctx.proved.append('row next(sig)-sig<=7 of interval %d == S[k+1]-S[k]' % k)
+            else:
+                ctx.viol.append({'property': PROP, 'key': key + '|shifted', 'label': 'next(sig)-sig[k=%d]' % k,
+                                 'detail': 'no inequality row with upper bound 7 equals sampled signal at node k+1 minus node k'})
     return ctx.result('signal-dynamics %s order=%d N=%d' % (what, order, N), {'kind': 'signal-dynamics', 'what': what, 'order': order, 'N': N, 'T': Tk[0], 'grid': item['grid'][0], 'proved': len(ctx.proved)})
 
 
